@@ -312,3 +312,23 @@ pub fn css(options_json: &str, source: &str) -> String {
     })
     .to_string()
 }
+
+/// `needs_separator_when_before` as a table over all serialization types (obtained by calling cssparser).
+pub fn septable() -> String {
+    use cssparser::TokenSerializationType as T;
+    let types: Vec<(&str, T)> = vec![
+        ("Nothing", T::Nothing), ("WhiteSpace", T::WhiteSpace), ("AtKeywordOrHash", T::AtKeywordOrHash), ("Number", T::Number),
+        ("Dimension", T::Dimension), ("Percentage", T::Percentage), ("UrlOrBadUrl", T::UrlOrBadUrl), ("Function", T::Function),
+        ("Ident", T::Ident), ("CDC", T::CDC), ("DashMatch", T::DashMatch), ("SubstringMatch", T::SubstringMatch),
+        ("OpenParen", T::OpenParen), ("DelimHash", T::DelimHash), ("DelimAt", T::DelimAt), ("DelimDotOrPlus", T::DelimDotOrPlus),
+        ("DelimMinus", T::DelimMinus), ("DelimQuestion", T::DelimQuestion), ("DelimAssorted", T::DelimAssorted),
+        ("DelimEquals", T::DelimEquals), ("DelimBar", T::DelimBar), ("DelimSlash", T::DelimSlash), ("DelimAsterisk", T::DelimAsterisk),
+        ("DelimPercent", T::DelimPercent), ("Other", T::Other),
+    ];
+    let mut rows = vec![];
+    for (an, a) in types.iter() {
+        let yes: Vec<&str> = types.iter().filter(|(_, b)| a.needs_separator_when_before(*b)).map(|(bn, _)| *bn).collect();
+        rows.push(format!("{}:{}", an, yes.join(",")));
+    }
+    rows.join(";")
+}
